@@ -41,6 +41,8 @@ class Adapter:
         self.cfg = cfg
         caps = list(self.types.Capability)
         self.cap = {"c%d" % (i + 1): caps[i] for i in range(len(cfg["caps"]))}
+        for x in cfg.get("custom", []):            # a capability tag that is not a member of the Capability enum (a plain string, as third-party tools declare)
+            self.cap[x] = "gpu_cluster_" + x
         self.capname = {v: k for k, v in self.cap.items()}
         z = {"n": NONE, "n2": NONE, "req": [], "mode": "none"}
         acts = []
@@ -48,7 +50,7 @@ class Adapter:
         for n in cfg["tools"]:
             for s in subsets:
                 acts.append(dict(z, op="register", n=n, req=s))
-            acts += [dict(z, op="metabolize", n=n, mode=m) for m in ("auto", "forced", "arith", "inner")] + [dict(z, op="tool_call", n=n)]
+            acts += [dict(z, op="metabolize", n=n, mode=m) for m in ("auto", "forced", "arith", "inner", "upper")] + [dict(z, op="tool_call", n=n), dict(z, op="tool_call", n=n, mode="upper")]
             acts += [dict(z, op="metabolize", n=n, n2=n2, mode="nested") for n2 in cfg["tools"]]
             for n2 in cfg["tools"] + [NONE]:
                 acts.append(dict(z, op="tool_loop", n=n, n2=n2))
@@ -102,14 +104,14 @@ class Adapter:
                     else:
                         m.register_function(n, body(n), "tool " + n, required_capabilities=req)
                 elif op == "metabolize":
-                    expr = {"auto": "%s(1)" % n, "forced": "%s(1)" % n, "arith": "1 + %s(1)" % n, "inner": "abs(%s(1))" % n,
+                    expr = {"auto": "%s(1)" % n, "forced": "%s(1)" % n, "arith": "1 + %s(1)" % n, "inner": "abs(%s(1))" % n, "upper": "%s(1)" % n.upper(),
                             "nested": "%s(%s(1))" % (n, a["n2"])}[a["mode"]]
                     r = m.metabolize(expr, self.mito.MetabolicPathway.OXIDATIVE if a["mode"] == "forced" else None)
                     obs["ok"] = bool(r.success)
                     if a["mode"] == "nested":
                         obs["ok2"] = bool(r.success)
                 elif op == "tool_call":
-                    r = m.execute_tool_call(self.prov.ToolCall(id="c1", name=n, arguments={"x": 1}))
+                    r = m.execute_tool_call(self.prov.ToolCall(id="c1", name=(n.upper() if a["mode"] == "upper" else n), arguments={"x": 1}))
                     obs["ok"] = bool(r.success)
                 elif op == "tool_loop":
                     names = [n] + ([a["n2"]] if a["n2"] != NONE else [])
@@ -195,6 +197,8 @@ def configs(tier):
     for allowed in ([], ["c1"], ["c2"], ["c1", "c2"]):
         out.append({"caps": caps, "tools": tools, "allowed": allowed, "unrestricted": False})
     out.append({"caps": caps, "tools": tools, "allowed": [], "unrestricted": True})
+    out.append({"caps": ["c1", "c2", "c3"], "tools": tools, "allowed": ["c1"], "unrestricted": False, "custom": ["c3"]})
+    out.append({"caps": ["c1", "c2", "c3"], "tools": tools, "allowed": ["c1", "c3"], "unrestricted": False, "custom": ["c3"]})
     if tier != "quick":
         caps3 = ["c1", "c2", "c3"]
         for allowed in ([], ["c1"], ["c1", "c3"], ["c2", "c3"]):
